@@ -303,6 +303,18 @@ def fmt_h(h):
 
 
 def run_impl(case):
+    if case.get("prime"):
+        # the same calls are first made on sources that are == / hash-equal to the real ones without being them (every
+        # count doubled): whatever that leaves behind in the library must not colour the answers below
+        twin = dict(case, sources=[dict(s, items=[[o, 2 * c] for o, c in s["items"]]) if s["t"] == "h" else dict(s, dice=[[[o, 2 * c] for o, c in d] for d in s["dice"]]) for s in case["sources"]])
+        tb = Built(twin)
+        for fi, sli, lim in case["calls"]:
+            try:
+                tb.call_top(fi, sli, lim, case.get("via", "expandable"))
+            except C.CaseTimeout:
+                raise
+            except BaseException:  # noqa: B902
+                pass
     b = Built(case)
     outs = []
     for fi, sli, lim in case["calls"]:
